@@ -158,9 +158,22 @@ func vLexLE(a, b weight) bool {
 //@   props C03 C12
 //@   modifies anything
 //@   call append#2 assert selectors[0].specificity == specificity && selectors[0].pseudoType == "" && selectors[0].pageType == pageType
+// declarations in non-matching @media blocks never apply, in imported sheets as well: an imported sheet and the
+// content of a matching @media block are processed for the SAME device media type, into the same rule
+// collections, and every media query of the sheet is evaluated against that media type
+//@   call newCSS#1 assert[imported-sheet-same-device] arg4 == deviceMediaType && arg6 == matcher && arg7 == pageRules && !arg3
+//@   call preprocessStylesheet#1 assert[media-content-same-device] arg0 == deviceMediaType && arg4 == matcher && arg5 == pageRules && arg8
+//@   call evaluateMediaQuery#1 assert[import-media-list] arg1 == deviceMediaType
+//@   call evaluateMediaQuery#2 assert[media-block] arg1 == deviceMediaType
 //@   call append#3 assert selectors[0].specificity == specificity && selectors[0].pageType == pageType
 //@   unclaimed call-*-pre1 "token lists held in parsed rules contain no nil token: a data invariant of the parser's output that is not tracked through Compound values"
 //@   unclaimed call-parsePageSelectors@1-pre2 "function-block arguments produced by the tokenizer contain no nil token and no identifier or number with an empty representation: a data invariant of the parser's output that is not tracked through Compound values"
+
+// a stylesheet is processed for the media type it is given ("print" when none is), imports allowed at its top
+//@ func newCSS
+//@   props C03
+//@   modifies anything
+//@   call preprocessStylesheet#1 assert[media-type-defaults-to-print] arg0 == ite(old(mediaType) == "", "print", old(mediaType)) && !arg8 && arg1 == ressource.BaseUrl
 
 // @page selector parsing never panics on any prelude (C07): invalid selectors give nil.
 // vPreludeTok: what the tokenizer guarantees of the prelude (assumed here): no nil token,
